@@ -532,63 +532,179 @@ def rule_OP6(ctx, rep):
     ops = [_opname(v) for v in dicts['binary_ops'].values]
     if any(o is None for o in ops) or len(ops) < 10:
         raise AnalysisError('OP6: entries of binary_ops are not operator.<name> / divmod')
-    # the dispatch block: `if op := binary_ops.get(ufunc):`
-    blk = None
-    opvar = None
-    for s in iter_nodes(fn.node):
-        if isinstance(s, ast.If) and isinstance(s.test, ast.NamedExpr) and 'binary_ops' in norm(s.test.value):
-            blk, opvar = s.body, s.test.target.id
-    if blk is None:
-        for i, s in enumerate(fn.node.body):
-            if isinstance(s, ast.Assign) and 'binary_ops' in norm(s.value) and isinstance(s.targets[0], ast.Name):
-                opvar = s.targets[0].id
-                nxt = fn.node.body[i + 1] if i + 1 < len(fn.node.body) else None
-                if isinstance(nxt, ast.If) and norm(nxt.test) in (opvar, f'{opvar} is not None'):
-                    blk = nxt.body
-    if blk is None:
+    # The dispatch is decided on path conditions: for each operator y, the atoms of the conditions governing the return statements
+    # are given their value for "ufunc is y, the first input is plain, the second is the secure object" -- table look-ups by the
+    # tables' keys -- and the one return whose condition holds is judged.  Walrus tests, assignments followed by `if`, operand
+    # temporaries and flipped branches all give the same conditions.
+    from . import cond, sem
+    import itertools
+    pm = parents(fn.node)
+    rets = [r for r in iter_nodes(fn.node) if isinstance(r, ast.Return) and r.value is not None]
+
+    def table(e):
+        """D for `D.get(X)` / `D[X]` with D one of the module's operator tables"""
+        if isinstance(e, ast.Call) and isinstance(e.func, ast.Attribute) and e.func.attr == 'get' and isinstance(e.func.value, ast.Name) and e.func.value.id in dicts:
+            return e.func.value.id
+        if isinstance(e, ast.Subscript) and isinstance(e.value, ast.Name) and e.value.id in dicts:
+            return e.value.id
+        return None
+
+    def is_op(e):
+        return table(e) == 'binary_ops'
+
+    def atom_value(a, y):
+        try:
+            e = ast.parse(a, mode='eval').body
+        except SyntaxError:
+            return None
+        if table(e) == 'binary_ops':
+            return True
+        if table(e) is not None:
+            return y in [_opname(k) for k in dicts[table(e)].keys]
+        if isinstance(e, ast.Call) and attr_tail(e.func) == 'isinstance' and len(e.args) == 2 and _input_index(e.args[0]) is not None and 'Secure' in norm(e.args[1]):
+            return _input_index(e.args[0]) == 1
+        if isinstance(e, ast.Compare) and len(e.ops) == 1:
+            l, r = e.left, e.comparators[0]
+            if isinstance(e.ops[0], (ast.Eq, ast.Is)) and (is_op(l) or is_op(r)):
+                return _opname(r if is_op(l) else l) == y
+            if isinstance(e.ops[0], ast.In) and is_op(l):
+                if isinstance(r, (ast.Tuple, ast.List, ast.Set)):
+                    return y in [_opname(x) for x in r.elts]
+                if isinstance(r, ast.Name) and r.id in dicts:
+                    return y in [_opname(k) for k in dicts[r.id].keys]
+            if isinstance(e.ops[0], ast.Is) and isinstance(r, ast.Constant) and r.value is None and table(l) is not None:
+                v = atom_value(cnorm(l), y)
+                return None if v is None else not v
+        return None
+    cands = []
+    for r in rets:
+        cx = cond.context(fn, r, pm)
+        if any(table(_parse(a)) == 'binary_ops' for a in cond.implied(cx)):
+            cands.append((r, cx))
+    if not cands:
         raise AnalysisError('OP6: dispatch on binary_ops not found in sectypes.__array_ufunc__')
+    opvar = '__op__'
     for y in ops:
-        verdict, why, site = None, 'no statement handles this operator', blk[0]
-        for s in blk:
-            if isinstance(s, ast.If):
-                t = s.test
-                rets = [r for r in s.body if isinstance(r, ast.Return)]
-                if isinstance(t, ast.Call) and attr_tail(t.func) == 'isinstance' and _input_index(t.args[0]) == 0:
-                    continue                      # first input is the secure object: operand order preserved
-                ropvars = {}
-                hit = False
-                if isinstance(t, ast.Compare) and len(t.ops) == 1 and isinstance(t.left, ast.Name) and t.left.id == opvar:
-                    if isinstance(t.ops[0], (ast.Eq, ast.Is)):
-                        hit = _opname(t.comparators[0]) == y
-                    elif isinstance(t.ops[0], ast.In):
-                        c = t.comparators[0]
-                        if isinstance(c, (ast.Tuple, ast.List, ast.Set)):
-                            hit = y in [_opname(e) for e in c.elts]
-                        elif isinstance(c, ast.Name) and c.id in dicts:
-                            hit = y in [_opname(k) for k in dicts[c.id].keys]
-                            ropvars = {f'{c.id}[{opvar}]': c.id}
-                    else:
-                        verdict, why, site = None, f'unrecognised test {norm(t)}', s
-                        break
-                elif isinstance(t, ast.NamedExpr) and isinstance(t.value, ast.Call) and attr_tail(t.value.func) == 'get' \
-                        and isinstance(t.value.func.value, ast.Name) and t.value.func.value.id in dicts:
-                    d = t.value.func.value.id
-                    hit = y in [_opname(k) for k in dicts[d].keys]
-                    ropvars = {t.target.id: d}
-                else:
-                    verdict, why, site = None, f'unrecognised test {norm(t)}', s
-                    break
-                if hit and rets:
-                    verdict, why = _swapped_verdict(y, rets[0].value, dicts, opvar, ropvars)
-                    site = rets[0]
-                    break
-            elif isinstance(s, ast.Return):
-                verdict, why = _swapped_verdict(y, s.value, dicts, opvar, {})
-                site = s
-                break
+        verdict, why, site = None, 'no statement handles this operator', cands[0][0]
+        chosen = []
+        for r, cx in cands:
+            ats = sorted(cond.atoms_of(cx))
+            known = {a: atom_value(a, y) for a in ats}
+            unk = [a for a in ats if known[a] is None]
+            outcomes = set()
+            for bits in itertools.product([True, False], repeat=min(len(unk), 6)):
+                v = dict(known)
+                v.update(dict(zip(unk, bits)))
+                outcomes.add(cond.evalf(cx, v))
+            if outcomes == {True}:
+                chosen.append(r)
+            elif outcomes != {False}:
+                chosen.append(None)
+                why = f'a condition governing `{norm(r)[:60]}` is not understood: {unk[:2]}'
+        if len(chosen) == 1 and chosen[0] is not None:
+            r = chosen[0]
+            ropvars = {}
+
+            class T(ast.NodeTransformer):
+                def visit_Call(self, n):
+                    n = self.generic_visit(n)
+                    return self.tbl(n)
+
+                def visit_Subscript(self, n):
+                    n = self.generic_visit(n)
+                    return self.tbl(n)
+
+                def tbl(self, n):
+                    d = table(n)
+                    if d == 'binary_ops':
+                        return ast.Name(id=opvar, ctx=ast.Load())
+                    if d is not None:
+                        ropvars[f'__{d}__'] = d
+                        return ast.Name(id=f'__{d}__', ctx=ast.Load())
+                    return n
+            val = T().visit(sem.expand(fn, r.value, r, pm))
+            verdict, why = _swapped_verdict(y, val, dicts, opvar, ropvars)
+            site = r
         if verdict is True:
             rep.ok('OP6', fn, f'np.{y}(x, <secure>)', why, site)
         elif verdict is False:
             rep.bad('OP6', fn, f'np.{y}(x, <secure>)', why, site)
         else:
             rep.skip('OP6', fn, f'np.{y}(x, <secure>)', why, site)
+
+
+def _parse(a):
+    try:
+        return ast.parse(a, mode='eval').body
+    except SyntaxError:
+        return None
+
+
+# ---------------------------------------------------------------------------------- OP7
+BINARY_DUNDERS = ('add', 'sub', 'mul', 'truediv', 'floordiv', 'mod', 'divmod', 'pow', 'lshift', 'rshift', 'and', 'xor', 'or', 'matmul')
+COMPARISONS = ('lt', 'le', 'eq', 'ge', 'gt', 'ne')
+
+
+def rule_OP7(ctx, rep):
+    """scalar / array broadcast through the operators: a binary operator method of a secure *scalar* type that hands its operand
+    to a runtime protocol first establishes what the operand is -- so that for a secure array it answers NotImplemented and
+    Python lets the array's own (reflected / mirrored) method broadcast the scalar.  Checked for every operator the secure
+    array class implements, on the path condition of each `runtime.<protocol>(.. other ..)` call."""
+    from . import cond
+    model = ctx.model
+    arr = model.classes.get('sectypes::SecureArray')
+    if arr is None:
+        raise AnalysisError('OP7: class sectypes.SecureArray not found')
+    arr_ops = {m.name for m in arr.body if isinstance(m, ast.FunctionDef)} | set(model.class_alias['sectypes::SecureArray'])
+    supported = set()
+    for op in BINARY_DUNDERS:
+        if f'__{op}__' in arr_ops or f'__r{op}__' in arr_ops:
+            supported |= {f'__{op}__', f'__r{op}__'}
+    for op in COMPARISONS:
+        if f'__{op}__' in arr_ops:
+            supported.add(f'__{op}__')
+    if len(supported) < 12:
+        raise AnalysisError(f'OP7: only {len(supported)} operator methods found on SecureArray')
+    # scalar secure types: SecureNumber and its subclasses (transitively), from the parsed class headers
+    scal = {'sectypes::SecureNumber'}
+    grew = True
+    while grew:
+        grew = False
+        for ck, bases in model.class_bases.items():
+            if ck.startswith('sectypes::') and ck not in scal and any(f'sectypes::{b.split(".")[-1]}' in scal for b in bases):
+                scal.add(ck)
+                grew = True
+    n = 0
+    for ck in sorted(scal):
+        cnode = model.classes[ck]
+        for m in cnode.body:
+            if not (isinstance(m, ast.FunctionDef) and m.name in supported and len(m.args.args) >= 2):
+                continue
+            othern = m.args.args[1].arg
+            fnrec = model.by_node.get(id(m))
+            if fnrec is None:
+                continue
+            pm = parents(fnrec.node)
+            for c in iter_nodes(fnrec.node):
+                if not (isinstance(c, ast.Call) and isinstance(c.func, ast.Attribute) and isinstance(c.func.value, ast.Name) and c.func.value.id == 'runtime'
+                        and any(isinstance(a, ast.Name) and a.id == othern for a in c.args)):
+                    continue
+                n += 1
+                cx = cond.context(fnrec, c, pm)
+                imp, ref = cond.implied(cx), cond.refuted(cx)
+                # established: some isinstance(other, <not an array class>) holds, isinstance(other, SecureArray) is excluded, or the
+                # operand went through _coerce/_coerce2 and the NotImplemented answer was returned
+                est = any(a.startswith(f'isinstance({othern},') and 'Array' not in a and 'SecureObject' not in a for a in imp) \
+                    or any(a.startswith(f'isinstance({othern},') and 'SecureArray' in a for a in ref) \
+                    or any('_coerce' in a and 'NotImplemented' in a for a in ref)
+                if not est and any('NotImplemented' in a and othern in a for a in ref):
+                    # `other = self._coerce(other)` (a definition in terms of the previous value) followed by the NotImplemented return
+                    ds = astq.reaching_definitions(fnrec.node, othern, c, pm)
+                    est = bool(ds) and all(d[1] is not None and isinstance(d[1], ast.Call) and attr_tail(d[1].func) in ('_coerce', '_coerce2') for d in ds)
+                if est:
+                    rep.ok('OP7', fnrec, c, f'{m.name}: the operand is filtered (NotImplemented for a secure array) before it reaches runtime.{c.func.attr}')
+                else:
+                    rep.bad('OP7', fnrec, c, f'{m.name} hands its operand to the scalar protocol runtime.{c.func.attr} without establishing what it is: for a secure array '
+                            f'operand (scalar {m.name.strip("_")} array, a broadcast plain NumPy supports and the array\'s own method handles) the scalar protocol is '
+                            'run on an array and fails, instead of NotImplemented letting the array method take over')
+    return n
